@@ -9,7 +9,7 @@ written out for the squared-exponential kernel (the only one supporting derivati
 import numpy as np
 
 from vmon.rec import digest
-from vmon.util import mk_rng, guarded, Raised, num_grad
+from vmon.util import mk_rng, guarded, Raised, num_grad_stable
 from vmon.ref import gp as R
 from vmon import gpgen as G
 
@@ -21,7 +21,7 @@ RULE = (
 )
 ASSUMPTIONS = ["derivatives are compared at 2e-6 relative plus the rounding noise of the difference quotient (eps*cond*|value|/h)"]
 TIMEOUT = {"quick": 300, "thorough": 1800}
-REQUIRED = {"post:gradient": 100, "post:spatial_derivatives": 100, "cases:nonconstant_mean": 40, "cases:batched_d>=2": 30, "judged": 100}
+REQUIRED = {"post:gradient": 100, "post:spatial_derivatives": 100, "cases:nonconstant_mean": 40, "cases:batched_d>=2": 30, "judged": 100, "mean_derivative_checks": 200, "variance_derivative_checks": 100}
 
 
 def jobs(tier, seed):
@@ -111,7 +111,11 @@ def run_job(job, rec):
             mu0, s0 = gp(qk)
             val_scale = abs(float(mu0[0])) + np.abs(y).max()
             noise = 100 * eps * cond * val_scale / h
-            dmu = num_grad(lambda t: float(gp(t)[0][0]), qk, h)
+            dmu, stable = num_grad_stable(lambda t: float(gp(t)[0][0]), qk, h)
+            if not stable:
+                rec.count("skipped_unstable_reference")
+                continue
+            rec.count("mean_derivative_checks")
             gscale = max(np.abs(dmu).max(), 1e-300)
             tol = 2e-6 * gscale + noise
             rec.check(bool(np.all(np.abs(gm[k] - dmu) <= tol)), "gradient-mean",
@@ -120,7 +124,10 @@ def run_job(job, rec):
                       lambda: f"{mean_name} mean, d={d}: spatial_derivatives mean-gradient {sm[k]} != numerical {dmu}", rec.context)
             var0 = float(s0[0]) ** 2
             if var0 > 1e-6 * a2:
-                dv = num_grad(lambda t: float(gp(t)[1][0]) ** 2, qk, h)
+                dv, stable = num_grad_stable(lambda t: float(gp(t)[1][0]) ** 2, qk, h)
+                if not stable:
+                    rec.count("skipped_unstable_reference")
+                    continue
                 vtol = 2e-6 * max(np.abs(dv).max(), 1e-300) + 100 * eps * cond * a2 / h
                 rec.count("variance_derivative_checks")
                 rec.check(bool(np.all(np.abs(sv[k] - dv) <= vtol)), "spatial-derivative-variance",
